@@ -2,5 +2,5 @@
 From Coq Require Import ZArith QArith List Bool ExtrOcamlBasic.
 Require Import SP.Model.Sched SP.Model.SchedIO SP.Model.Ledger.
 Extraction Language OCaml.
-Extraction "Extract/ocaml/sched.ml" mk_resource mk_limit all_results all_bookings schedule dates
+Extraction "Extract/ocaml/sched.ml" mk_resource mk_resource_cal mk_limit all_results all_bookings schedule dates
   Ledger.run Ledger.step Ledger.empty.
